@@ -51,6 +51,7 @@ func c05Depth(c *core.Ctx) int {
 // kindsOf names the kinds of the tables a statement changes (file, temp, stdin).
 func kindsOf(o dml.Op, s *dml.State) string {
 	var names []string
+	o = dml.Unwrap(o)
 	switch x := o.(type) {
 	case *dml.Update:
 		for _, a := range x.Targets {
@@ -281,7 +282,10 @@ func compareStep(op dml.Op, pre *dml.State, out *dml.Outcome, res drv.Result, ob
 			msg: fmt.Sprintf("the %d unmatched rows were appended in another order than given\n    csvq:\n      %s\n    reference:\n      %s", out.Tail, showObs(obs), showState(out.Next))}
 	}
 	wantLogs := out.Logs
-	if out.HasAffected && res.Affected != out.Affected {
+	// Tx.AffectedRows is only maintained by the top-level processor (storeResults is not inherited by the
+	// processors of child blocks): for a statement inside a nested block the reported count is the log line alone
+	_, nested := op.(*dml.Nested)
+	if out.HasAffected && res.Affected != out.Affected && !nested {
 		if out.Note != "duplicate-key" || res.Affected != out.AffectedAlt {
 			return bad("affected-count", fmt.Sprintf("Tx.AffectedRows = %d, reference %d (log %q)", res.Affected, out.Affected, res.Out))
 		}
